@@ -24,19 +24,26 @@ def bitsTok (bs : List Bool) : String :=
 
 def natsTok (xs : List Nat) : String := listTok (xs.map toString)
 
+/-- the gate (harness name) in front of each program point -/
 def gateTok : PC → Option String
-  | .openFile => some "g1" | .writing => some "g2" | .setMeta => some "g3" | .move => some "g4"
+  | .fastComplete => some "fc" | .fastDirty => some "fd" | .tryDirty => some "td"
+  | .openFile => some "g1" | .writing => some "g2" | .setMeta => some "g3"
+  | .markComplete => some "mc" | .incNum => some "in" | .loadNum => some "ld"
+  | .move => some "g4" | .setCommitted => some "sc" | .markEmpty => some "me"
   | _ => none
 
-def atStop (pc : PC) : Bool := (gateTok pc).isSome || pc == .done
+/-- a thread stops at the gates that are active in this case -/
+def atStop (gates : List String) (pc : PC) : Bool :=
+  pc == .done || (match gateTok pc with | some g => gates.contains g | none => false)
 
-/-- run thread `tid` until it is paused at a gate or done -/
-def runToGate (k : Nat) : Nat → State → Nat → State
+/-- run thread `tid` until it is paused at an active gate or done -/
+def runToGate (gates : List String) (k : Nat) : Nat → State → Nat → State
   | 0, s, _ => s
   | f + 1, s, tid =>
-    let s' := stepThread crc32 s tid k
+    -- without the g2 gate the payload reader is not throttled: every Read returns all that is left
+    let s' := stepThread crc32 s tid (if gates.contains "g2" then k else 1073741824)
     match s'.threads[tid]? with
-    | some t => if atStop t.pc then s' else runToGate k f s' tid
+    | some t => if atStop gates t.pc then s' else runToGate gates k f s' tid
     | none => s'
 
 /-- impl-side view of a worker (from the transcript only) -/
@@ -55,6 +62,7 @@ structure St where
   ws : List W := []
   verified : List Nat := []   -- pieces for which the implementation accepted the blob's bytes
   desync : Option String := none   -- first disagreement between model and implementation (reported at `done`)
+  gates : List String := ["g1", "g2", "g3", "g4"]
 
 def npieces (s : St) : Nat := numPiecesOf s.pl s.blob.length
 
@@ -67,33 +75,43 @@ def collides (s : St) (pi : Int) (p : Bytes) : Bool :=
   0 ≤ pi && pi.toNat < npieces s && p != pieceOf s.pl s.blob pi.toNat &&
     p.length == (pieceOf s.pl s.blob pi.toNat).length && crc32 p == crc32 (pieceOf s.pl s.blob pi.toNat)
 
-def holdingPos (p : String) : Bool := p == "g1" || p == "g2" || p == "g3"
+/-- gate positions at which a parked writer owns its piece (dirty) -/
+def holdingPos (p : String) : Bool := p == "g1" || p == "g2" || p == "g3" || p == "mc" || p == "me"
+
+/-- gate positions reached only after the checksum matched -/
+def acceptedPos (p : String) : Bool := p == "g3" || p == "mc" || p == "in" || p == "ld" || p == "g4" || p == "sc" || p == "ok"
+
+/-- gate positions reached only after the piece was marked complete -/
+def completedPos (p : String) : Bool := p == "in" || p == "ld" || p == "g4" || p == "sc" || p == "ok"
 
 def init (cfg : List String) : Option St := do
   let pl ← (kv? cfg "pl").bind nat?
   let blob ← (kv? cfg "blob").bind bytes?
   if pl = 0 then none else
-  some { m := KrakenModel.AgentTorrent.init (MetaInfo.ofBlob crc32 pl blob), pl := pl, blob := blob }
+  let gates := match kv? cfg "gates" with | some g => list? g | none => ["g1", "g2", "g3", "g4"]
+  some { m := KrakenModel.AgentTorrent.init (MetaInfo.ofBlob crc32 pl blob), pl := pl, blob := blob, gates := gates }
 
 def allDone (s : St) : Bool := s.ws.all (·.pos == "done")
 
 /-- monitors on an accepted / rejected write, from the implementation's answer only -/
-def resultMon (s : St) (me : Option String) (pi : Int) (p : Bytes) (impl : String) : List String :=
+def resultMon (s : St) (me : Option String) (pi : Int) (p : Bytes) (impl : String) (selfCompleted : Bool := false) : List String :=
   let others := s.ws.filter fun w => some w.name ≠ me && holdingPos w.pos && w.pi == pi
-  (if (impl == "ok" || impl == "g3" || impl == "g4") && !isPiece s pi p && !collides s pi p then
+  (if acceptedPos impl && !isPiece s pi p && !collides s pi p then
     [s!"side=impl key=accepted-corrupt payload for index {pi} accepted ({impl}) although it is not the blob's piece"] else []) ++
   (if impl == "panic" then [s!"side=impl key=panic WritePiece panicked for index {pi}"] else []) ++
+  (if completedPos impl && !selfCompleted && 0 ≤ pi && s.verified.contains pi.toNat then
+    [s!"side=impl key=double-accept a second writer completed piece {pi}"] else []) ++
   (if impl == "errConflict" && others.isEmpty then
     [s!"side=impl key=conflict-without-writer index {pi} reported as being written while no writer holds it"] else []) ++
   (if impl == "errComplete" && !(0 ≤ pi && s.verified.contains pi.toNat) then
     [s!"side=impl key=complete-unverified index {pi} reported complete although no correct payload was accepted"] else []) ++
   (if (impl == "errSum") && isPiece s pi p then
     [s!"side=impl key=rejected-correct the blob's piece {pi} was rejected with a checksum error"] else []) ++
-  (if (impl == "g1" || impl == "g2" || impl == "g3") && !others.isEmpty then
+  (if holdingPos impl && !others.isEmpty then
     [s!"side=impl key=double-writer two writers hold piece {pi} at the same time"] else [])
 
 def markVerified (s : St) (pi : Int) (p : Bytes) (impl : String) : St :=
-  if (impl == "ok" || impl == "g4") && isPiece s pi p && !s.verified.contains pi.toNat then
+  if completedPos impl && isPiece s pi p && !s.verified.contains pi.toNat then
     { s with verified := pi.toNat :: s.verified } else s
 
 def obsMon (s : St) (impl : List String) : List String :=
@@ -109,8 +127,9 @@ def obsMon (s : St) (impl : List String) : List String :=
     ((List.range n).filter (fun i => s.verified.contains i && !(bits.getD i false))).map (fun i =>
       s!"side=impl key=bitfield-lost piece {i} was verified but is not reported complete") ++
     (if cm == "1" && !allV then ["side=impl key=complete-early Complete() is true before every piece was verified"] else []) ++
+    (if cm == "1" && setBits.length ≠ n then [s!"side=impl key=complete-with-hole Complete() is true while the bitfield shows {setBits.length} of {n} pieces"] else []) ++
     (if cm == "0" && allV && allDone s then ["side=impl key=complete-missed every piece is verified, no call in flight, Complete() is false"] else []) ++
-    (if bd ≠ min (setBits.length * s.pl) s.blob.length then
+    (if bd ≠ min (setBits.length * s.pl) s.blob.length && !(s.ws.any (·.pos == "in")) then
       [s!"side=impl key=progress-mismatch BytesDownloaded={bd} with {setBits.length} complete pieces"] else []) ++
     (match bytes? fileTok with
      | some f =>
@@ -161,7 +180,7 @@ def stepCore (s : St) (kind : String) (args impl : List String) : Option (St × 
     -- model part (skipped when the model's call already ended: model and implementation disagreed before)
     let t0? := s.m.threads[w.tid]?
     let live := match t0? with | some t0 => t0.pc != .done | none => false
-    let m1 := if live then runToGate k 64 s.m w.tid else s.m
+    let m1 := if live then runToGate s.gates k 64 s.m w.tid else s.m
     let obs := if !live then ["model-call-ended"] else
       match m1.threads[w.tid]? with
       | some t => (match gateTok t.pc, t.result with
@@ -174,14 +193,51 @@ def stepCore (s : St) (kind : String) (args impl : List String) : Option (St × 
       | ["at", g] => g
       | ["done", r] => r
       | _ => "?"
-    let pf := resultMon s (some name) w.pi w.payload implPos
+    let pf := resultMon s (some name) w.pi w.payload implPos (completedPos w.pos)
     let s1 := markVerified { s with m := m1 } w.pi w.payload implPos
     let newPos := match impl with
       | ["at", g] => g
       | _ => "done"
     let s2 := setW s1 { w with pos := newPos }
-    let pc0 := match t0? with | some t0 => toString (repr t0.pc) | none => "-"
-    pure (s2, { obs := obs, branch := s!"run.{pc0}.{sp obs}", propfails := pf })
+    let pc0 := match t0? with | some t0 => ((toString (repr t0.pc)).splitOn ".").getLastD "-" | none => "-"
+    pure (s2, { obs := obs, branch := s!"run.{pc0}.{"_".intercalate obs}", propfails := pf })
+  | ["burst", namesT, kT] => do
+    -- several parked writers are released at the same instant; the implementation's answer tells who got
+    -- ahead: the model follows that order (writers that end up owning / having completed their piece first)
+    let k ← nat? kT
+    let names := list? namesT
+    let implOf (n : String) : String :=
+      match impl.find? (fun t => t.startsWith (n ++ "=")) with
+      | some t => (t.drop (n.length + 1)).toString
+      | none => "?"
+    let rankOf (n : String) : Nat :=
+      let r := implOf n
+      if r.startsWith "at." then 0 else if r == "done.ok" || r == "done.errSum" then 1 else 2
+    let ordered := (names.filter (rankOf · == 0)) ++ (names.filter (rankOf · == 1)) ++ (names.filter (rankOf · == 2))
+    let step1 := fun (acc : St × List (String × String) × List String) (n : String) =>
+      let (st, outs, pfs) := acc
+      match findW st n with
+      | none => acc
+      | some w =>
+        let live := match st.m.threads[w.tid]? with | some t0 => t0.pc != .done | none => false
+        let m1 := if live then runToGate st.gates k 64 st.m w.tid else st.m
+        let o := if !live then "model-call-ended" else
+          match m1.threads[w.tid]? with
+          | some t => (match gateTok t.pc, t.result with
+            | some g, _ => s!"at.{g}"
+            | none, some r => s!"done.{resTok r}"
+            | none, none => "stuck")
+          | none => "stuck"
+        let r := implOf n
+        let implPos := if r.startsWith "at." then (r.drop 3).toString else if r.startsWith "done." then (r.drop 5).toString else "?"
+        let pf := resultMon st (some n) w.pi w.payload implPos (completedPos w.pos)
+        let st1 := markVerified { st with m := m1 } w.pi w.payload implPos
+        let st2 := setW st1 { w with pos := if r.startsWith "at." then implPos else "done" }
+        (st2, outs ++ [(n, o)], pfs ++ pf)
+    let (s', outs, pfs) := ordered.foldl step1 (s, [], [])
+    let obs := names.map fun n => match outs.find? (·.1 == n) with | some (_, o) => s!"{n}={o}" | none => s!"{n}=?"
+    let winners := (names.filter (rankOf · == 0)).length
+    pure (s', { obs := obs, branch := s!"burst.w{winners}", propfails := pfs })
   | ["obs"] =>
     let m := s.m
     let obs := [s!"bf={bitsTok (bitfield m)}", s!"bd={bytesDownloaded m}", s!"complete={boolTok (complete m)}",
@@ -214,6 +270,10 @@ def stepCore (s : St) (kind : String) (args impl : List String) : Option (St × 
       | ["panic"] => [s!"side=impl key=panic HasPiece panicked for index {pi}"]
       | _ => []
     pure (s, { obs := obs, branch := s!"has.{obs.headD ""}", propfails := pf })
+  | ["recreate"] =>
+    if !quiescent s.m then none else
+    some ({ s with m := KrakenModel.AgentTorrent.step crc32 s.m .recreate, verified := [], ws := [] },
+          { obs := ["ok"], branch := "recreate" })
   | ["reopen"] =>
     if !quiescent s.m then none else
     some ({ s with m := KrakenModel.AgentTorrent.step crc32 s.m .reopen }, { obs := ["ok"], branch := "reopen" })
@@ -273,6 +333,8 @@ def cstep (s : CSt) (kind : String) (args impl : List String) : Option (CSt × S
       (if w.res == "ok" && !isPiece b w.pi w.payload && !collides b w.pi w.payload then
         [s!"side=impl key=accepted-corrupt payload of writer {w.id} for index {w.pi} accepted although it is not the blob's piece"] else []) ++
       (if w.res == "panic" then [s!"side=impl key=panic writer {w.id} panicked for index {w.pi}"] else []) ++
+      (if w.res == "ok" && s.hist.any (fun o => o.id ≠ w.id && o.pi == w.pi && o.res == "ok" && o.id < w.id) then
+        [s!"side=impl key=double-accept two writers were accepted for index {w.pi} ({w.id} and another)"] else []) ++
       (if w.res == "errConflict" && overl.isEmpty then
         [s!"side=impl key=conflict-without-writer writer {w.id}: index {w.pi} reported as being written, no overlapping writer got past tryMarkDirty"] else []) ++
       (if w.res == "errComplete" && okBefore.isEmpty then
